@@ -203,5 +203,6 @@ def run(ctx):
         check_next(ctx, i)
     for i in range(ctx.budget(4, 16)):
         check_training(ctx, i)
+        ctx.gc(4)
     for i in range(ctx.budget(12, 60)):
         check_average_reward(ctx, i)
